@@ -193,6 +193,8 @@ def make_chain(rng):
             d.steps.append(("evo3", M.Vec(M.Prim(rng.choice(["int32", "int16", "float32", "uint8"]))), False))
             d.steps.append(("evo4", M.Prim(rng.choice(["int32", "uint16", "float32"])), True))
             d.steps.append(("evo5", M.Vec(M.Prim(rng.choice(["int32", "int8"]))), True))
+            d.steps.append(("evo6", M.Opt(M.Prim(rng.choice(["int32", "float32", "uint16"]))), True))
+            d.steps.append(("evo7", M.Opt(M.Prim(rng.choice(["int32", "int16"]))), False))
     for r in recs:
         if rng.chance(0.6):
             r.fields.append(("vecfield%d" % rng.randint(1, 99), M.Vec(M.Prim(rng.choice(["int32", "int16", "float32"])))))
